@@ -495,7 +495,33 @@ def h_marginal_seeded(h):
             f"base.draw_sample received random_state={draws}")
 
 
+def h_big_draw(h):
+    """a sample larger than any internal block size is still ONE stream of base realisations: either one base draw of
+    the requested size, or several draws that do not restart the same integer seed (recording base model, concrete)"""
+    vc = shim.virocon()
+    draws = []
+
+    class Base:
+        n_dim = 2
+
+        def draw_sample(self, n, *, random_state=None):
+            draws.append((int(n), random_state))
+            return np.ones((int(n), 2))
+
+    n = h.cfg["n"]
+    t = vc.TransformedModel(Base(), lambda x: x, lambda x: x, lambda x: 1.0, precision_factor=1.0, random_state=h.cfg["seed"])
+    smp = t.draw_sample(n)
+    h.reach()
+    h.check(np.shape(smp) == (n, 2), "requested-size-honoured", f"{np.shape(smp)}")
+    h.check(sum(k for k, _ in draws) == n, "base-realisations-add-up-to-the-requested-size", f"{draws[:4]}")
+    ints = [rs for _, rs in draws if isinstance(rs, (int, np.integer)) and not isinstance(rs, bool)]
+    h.check(len(draws) == 1 or len(ints) <= 1, "blocks-do-not-restart-the-same-integer-seed",
+            f"{len(draws)} base draws, {len(ints)} of them started from the integer seed {ints[:1]}: repeated realisations")
+
+
 def obligations(tier):
+    for n_ in (3, 2_500_000):
+        yield ("big_draw", h_big_draw, {"n": n_, "seed": 42}, {})
     for pair in PAIRS:
         for direction in ("inverse(transform(x))", "transform(inverse(y))"):
             yield ("round_trip", h_round_trip, {"pair": pair, "direction": direction}, {"timeout_ms": 15000})
